@@ -48,6 +48,7 @@ type aeCtx struct {
 	scope      func(w *world) bool // property-level scope: worlds outside it carry no obligation
 	compareHook *ssa.Function      // tabulation: calls to this function yield an opaque sign term
 	allowCrossTerm bool
+	filter func(w *world) bool // query mode: only worlds accepted by the filter are explored
 }
 
 func newAECtx(p *Prog) *aeCtx {
